@@ -289,12 +289,15 @@ func challengeDependence(r *vcore.Run) {
 		fc  fieldCtx
 		b   string
 		emu bool
+		t1c int
 	}
 	var jobs []job
 	for _, fc := range []fieldCtx{fBN254, fBLS377} {
 		for _, b := range builders {
 			for _, emu := range []bool{false, true} {
-				jobs = append(jobs, job{fc, b, emu})
+				for t1c := 0; t1c < 4; t1c++ {
+					jobs = append(jobs, job{fc, b, emu, t1c})
+				}
 			}
 		}
 	}
@@ -302,7 +305,7 @@ func challengeDependence(r *vcore.Run) {
 	tagName := map[int]string{tagRecFirst: "first(root)", tagRecMid: "between-gadgets", tagRecLast: "after-all-gadgets"}
 	vcore.Parallel(len(jobs), 8, func(i int) {
 		j := jobs[i]
-		sh := &mgShape{withEmulated: j.emu}
+		sh := &mgShape{withEmulated: j.emu, t1Const: j.t1c}
 		sys, err := compile(j.fc, j.b, &mgCircuit{sh: sh})
 		if err != nil {
 			r.Inconclusive("mg-compile:" + bucket(err))
@@ -310,7 +313,8 @@ func challengeDependence(r *vcore.Run) {
 			return
 		}
 		r.Count("chal.circuits", 1)
-		rng := r.Rand(fmt.Sprintf("chal/%s/%v", j.fc.name, j.emu))
+		r.Count("chal.circuits.table1="+t1ConstName[j.t1c], 1)
+		rng := r.Rand(fmt.Sprintf("chal/%s/%v/%d", j.fc.name, j.emu, j.t1c))
 		run := func(m *mgWit) (map[int]*big.Int, *recorder, int, error) {
 			w, _ := circuits.MakeWitness(j.fc.mod, []*big.Int{one}, m.secret())
 			rec, lg := newRecorder(), &commitLog{}
@@ -321,7 +325,7 @@ func challengeDependence(r *vcore.Run) {
 			}
 			return ch, rec, lg.calls, e
 		}
-		for wi := 0; wi < r.Pick(3, 30); wi++ {
+		for wi := 0; wi < r.Pick(2, 10); wi++ {
 			base := &mgWit{A: randBelow(rng, pow2(60)), B: randBelow(rng, pow2(60)), Own: randBelow(rng, j.fc.mod)}
 			for k := range base.T1 {
 				base.T1[k] = randBelow(rng, j.fc.mod)
@@ -332,8 +336,8 @@ func challengeDependence(r *vcore.Run) {
 			base.Q2 = [2]*big.Int{big.NewInt(3), big.NewInt(8)}
 			base.R = [3]*big.Int{randBelow(rng, big.NewInt(255)), randBelow(rng, big.NewInt(8000)), randBelow(rng, big.NewInt(1<<20-1))}
 			ch0, rec0, ncommit, e0 := run(base)
-			r.Eval(fmt.Sprintf("chal-base|%s|%s|%v|%v", j.fc.name, j.b, j.emu, strs(base.secret())), true)
-			rep := map[string]any{"field": j.fc.name, "builder": j.b, "emulated": j.emu, "witness": strs(base.secret())}
+			r.Eval(fmt.Sprintf("chal-base|%s|%s|%v|%d|%v", j.fc.name, j.b, j.emu, j.t1c, strs(base.secret())), true)
+			rep := map[string]any{"field": j.fc.name, "builder": j.b, "emulated": j.emu, "table1_layout": t1ConstName[j.t1c], "witness": strs(base.secret())}
 			if e0 != nil {
 				r.Count("chal.HONEST-REJECTED", 1)
 				rep["solver_said"] = e0.Error()
@@ -342,7 +346,8 @@ func challengeDependence(r *vcore.Run) {
 			}
 			r.Count(fmt.Sprintf("chal.native-commitment-calls-per-solve=%d", ncommit), 1)
 			// the lookups in the shared circuit still return the stored entries
-			wantRes := []*big.Int{base.T1[0], base.T1[2], big.NewInt(1000 + 9), big.NewInt(1000 + 64)}
+			tab1 := mgTable1(base.T1, j.t1c)
+			wantRes := []*big.Int{tab1[0], tab1[2], big.NewInt(1000 + 9), big.NewInt(1000 + 64)}
 			for q, wv := range wantRes {
 				if g := rec0.get(q); g == nil || g.Cmp(wv) != 0 {
 					rep["query"], rep["got"], rep["want"] = q, fmt.Sprint(g), wv.String()
@@ -394,14 +399,16 @@ func challengeDependence(r *vcore.Run) {
 			}
 			inc := func(x *big.Int) { x.Add(x, one) }
 			vs := []vary{
-				{"table1-entry-never-queried", func(m *mgWit) { inc(m.T1[1]) }},
-				{"table1-entry-queried", func(m *mgWit) { inc(m.T1[0]) }},
 				{"table1-query-index", func(m *mgWit) { inc(m.Q1[0]) }},
 				{"table2(constant-entries)-query-index", func(m *mgWit) { inc(m.Q2[0]) }},
 				{"rangechecked-8bit-value", func(m *mgWit) { m.R[0].Xor(m.R[0], one) }},
 				{"rangechecked-20bit-value", func(m *mgWit) { m.R[2].Xor(m.R[2], big.NewInt(1<<11)) }},
 				{"rangechecked-60bit-value", func(m *mgWit) { m.A.Xor(m.A, big.NewInt(4)) }},
 				{"harness-callback-own-variable", func(m *mgWit) { inc(m.Own); m.Own.Mod(m.Own, j.fc.mod) }},
+			}
+			for e := range base.T1 { // every witness entry of table 1, queried or not, whatever constant rows surround it
+				e := e
+				vs = append(vs, vary{"table1-witness-entry(" + t1ConstName[j.t1c] + ")", func(m *mgWit) { inc(m.T1[e]); m.T1[e].Mod(m.T1[e], j.fc.mod) }})
 			}
 			if j.emu {
 				vs = append(vs, vary{"emulated-mul-operand-limb", func(m *mgWit) { m.EA[1].Xor(m.EA[1], big.NewInt(2)) }})
@@ -410,8 +417,8 @@ func challengeDependence(r *vcore.Run) {
 				m := base.clone()
 				v.f(m)
 				ch1, _, _, e1 := run(m)
-				r.Eval(fmt.Sprintf("chal-vary|%s|%s|%v|%v|%s", j.fc.name, j.b, j.emu, strs(base.secret()), v.name), true)
-				rep2 := map[string]any{"field": j.fc.name, "builder": j.b, "emulated": j.emu, "witness": strs(base.secret()), "changed": v.name, "witness2": strs(m.secret())}
+				r.Eval(fmt.Sprintf("chal-vary|%s|%s|%v|%d|%v|%s|%v", j.fc.name, j.b, j.emu, j.t1c, strs(base.secret()), v.name, strs(m.secret())), true)
+				rep2 := map[string]any{"field": j.fc.name, "builder": j.b, "emulated": j.emu, "table1_layout": t1ConstName[j.t1c], "witness": strs(base.secret()), "changed": v.name, "witness2": strs(m.secret())}
 				if e1 != nil {
 					r.Inconclusive("chal-variant-rejected:" + v.name)
 					continue
